@@ -11,7 +11,7 @@
 From Coq Require Import ZArith List String Bool.
 From Gigue Require Import Types Bits Isa Enc GenTables Builder BuilderTies Samplers Generator Machine MachineLemmas
   SplitProofs FragProofs GenLemmas ImageSem CtorSpec C12Defs C12Proofs GenWF GenWFProps SliceLemmas FloatSign GenWF2 BodyExec BodyBridge GenWF5 FrameExec CodeMem SwitchExec GenWF6 CallFrame FixerTamper MethodContract SaveRestore WholeImage Loader
-  GenWF9F WalkK FixerCall MethodContractFixer WholeImageFixer LoaderFixer Witness.
+  GenWF9F WalkK FixerCall MethodContractFixer WholeImageFixer LoaderFixer Witness WitnessFixer LoaderWitnessFixer GenWF3.
 Import ListNotations.
 Open Scope Z_scope.
 
@@ -177,6 +177,57 @@ Theorem C11_every_method_checked : forall c script img,
             (steps_fixer (im_methods img) (max_depth (im_methods img)) id) m.
 Proof. exact every_fixer_method_returns. Qed.
 
+(* PROVED (Layer B), FIXER, every accepted configuration, decision script and emitted
+   image, EVERY CALL-MAKING METHOD of any call depth, every placement and entry
+   state as in C11_every_method_checked: THE TAMPERED FRAME IS TRAPPED.
+   Let idx be the positions of the method's call stubs (site_ok: the slot holds the
+   tagged stub of its callee).  For EVERY position p of the method's own body that
+   is not strictly inside a stub - before / after each of its own instructions,
+   immediately before each of its calls, immediately after each return from a
+   callee - the untampered run reaches p after some k steps with the frame live (the
+   saved-ra slot holds the return address).  If AT THAT MOMENT the slot is
+   overwritten with ANY other 64-bit value X, the continued run - the rest of the
+   body and all the callees still to be called, each with all its callees - arrives
+   at the method's own check sequence, and the machine's next step is the TRAP of
+   its ecall (pc = method + 4 (3 + body + 5)): the `ret` through the forged address
+   is never executed - execution reaches the trap before any control transfer to X.
+   `_partial`: moments strictly inside a callee's execution (tampering the CALLER's
+   slot while a callee runs) and inside the 5-instruction stubs / the epilogue are
+   not positions of this theorem; the return instant itself is
+   C11_forged_return_trapped_partial (every state).  Those moments are decided on
+   implementation images by the tamper judge on every run. *)
+Theorem C11_tampered_frame_traps_partial : forall c script img,
+  successful c script img -> c_variant c = GFixer ->
+  forall L, placed c img L ->
+  forall id m, nth_error (im_methods img) id = Some m -> m_is_leaf m = false ->
+  forall s rest, code_loaded img s -> pc s = m_addr m -> env_ok (gv c) L (c_data_reg c) s ->
+    let N := need_method c (im_methods img) (max_depth (im_methods img)) id in
+    let S := rget s 2 in
+    S mod 8 = 0 -> N <= S < W64 -> stk_lo L <= S - N -> S <= stk_hi L ->
+    0 <= rget s 8 < W64 -> 0 <= rget s 1 < W64 -> cfi s = rget s 1 :: rest ->
+    exists idx, Forall2 (site_ok c (im_methods img) m) idx (m_callees m) /\
+    forall p : nat, (p <= Z.to_nat (m_body m))%nat ->
+      (forall i, In i idx -> ~ (Z.to_nat i - 3 < p < Z.to_nat i - 3 + 5)%nat) ->
+      exists k sk, run (gv c) L k s = (Next sk, k) /\ pc sk = m_addr m + 4 * (3 + Z.of_nat p) /\
+        load_bytes (mem sk) (S - 24) 8 = rget s 1 /\
+        forall X, 0 <= X < W64 -> X <> rget s 1 ->
+          exists n st, run (gv c) L n (set_mem sk (store_bytes (mem sk) (S - 24) 8 X)) = (Next st, n) /\
+            pc st = m_addr m + 4 * (3 + m_body m + 5) /\ step (gv c) L st = Trap st.
+Proof. exact every_fixer_method_tamper_traps. Qed.
+
+(* the hypotheses of C11_tampered_frame_traps_partial are met by a concrete machine state: method
+   wid_x of the witness image (it makes three calls; body of 40 instructions), entered at its first
+   instruction with its return address registered on the CFI stack, the image loaded word by word *)
+Theorem C11_tampered_frame_nonvacuous :
+  nth_error (im_methods wimg_x) wid_x = Some wm_x /\ m_is_leaf wm_x = false /\ m_callees wm_x <> [] /\ 0 < m_body wm_x /\
+  placed wcfg_fixer2 wimg_x wL_x /\ code_loaded wimg_x ws1_x /\ pc ws1_x = m_addr wm_x /\
+  env_ok (gv wcfg_fixer2) wL_x (c_data_reg wcfg_fixer2) ws1_x /\
+  (let N := need_method wcfg_fixer2 (im_methods wimg_x) (max_depth (im_methods wimg_x)) wid_x in
+   let S := rget ws1_x 2 in
+   S mod 8 = 0 /\ N <= S < W64 /\ stk_lo wL_x <= S - N /\ S <= stk_hi wL_x) /\
+  0 <= rget ws1_x 8 < W64 /\ 0 <= rget ws1_x 1 < W64 /\ cfi ws1_x = rget ws1_x 1 :: [].
+Proof. exact fixer_tamper_nonvacuous. Qed.
+
 Theorem C11_nonvacuous : exists img, successful wcfg_fixer wscript_fixer img.
 Proof. exact witness_fixer. Qed.
 
@@ -186,6 +237,8 @@ Print Assumptions C11_forged_return_trapped_partial.
 Print Assumptions C11_checked_return_passes_partial.
 Print Assumptions C11_untampered_run.
 Print Assumptions C11_every_method_checked.
+Print Assumptions C11_tampered_frame_traps_partial.
+Print Assumptions C11_tampered_frame_nonvacuous.
 Print Assumptions C11_nonvacuous.
 Print Assumptions C11_returns_checked_partial.
 Print Assumptions C11_method_call_tagged_partial.
